@@ -79,7 +79,7 @@ Theorem selection_valid_softmax : forall items n config_n keys,
     Z.of_nat (length out) = rank_length n config_n N /\
     (forall r kr r' kr', In (r, kr) (combine valid keys) -> In r out ->
        In (r', kr') (combine valid keys) -> ~ In r' out -> (kr' <= kr)%Q).
-Proof. exact (fun items n c keys => selection_valid_rank_l softmax_mask softmax_len items n c keys softmax_len_spec). Qed.
+Proof. exact selection_valid_softmax_l. Qed.
 Print Assumptions selection_valid_softmax.
 
 Theorem selection_valid_stochastic : forall items n config_n keys,
@@ -93,7 +93,7 @@ Theorem selection_valid_stochastic : forall items n config_n keys,
     Z.of_nat (length out) = rank_length n config_n N /\
     (forall r kr r' kr', In (r, kr) (combine valid keys) -> In r out ->
        In (r', kr') (combine valid keys) -> ~ In r' out -> (kr' <= kr)%Q).
-Proof. exact (fun items n c keys => selection_valid_rank_l stochastic_mask stochastic_len items n c keys stochastic_len_spec). Qed.
+Proof. exact selection_valid_stochastic_l. Qed.
 Print Assumptions selection_valid_stochastic.
 
 Theorem positive_runtime_n_overrides : forall k config_n N, (0 < k)%Z -> (0 <= N)%Z ->
